@@ -314,7 +314,6 @@ package core
 // `logFn := logging.Debug; if len(oldChain) > 63 { logFn = logging.Warn }; logFn(…)` (blockchain.go:924-929): a call through a local
 // function variable that is a phi of two loggers. The engine names it by its SSA register and would havoc the whole heap
 // (engine_requests/C11.md §7); both possible callees are loggers (effect-free by the engine's own list).
-//@ effectfree dynamic:t120
 
 //@ ghost var c11LastIdx: int                // … and its index in newChain
 //@ ghost var c11LastIns: *types.Block      // reorg: the block made head by the previous iteration of the rewrite loop (nil: none yet)
